@@ -141,7 +141,9 @@ impl DnsCache {
             .filter_map(|(instance, srv_list)| {
                 if let Some(item) = srv_list.first() {
                     if let Some(dns_srv) = item.record.any().downcast_ref::<DnsSrv>() {
-                        if dns_srv.host() == host {
+                        // Host names are case-insensitive: the owner name of an
+                        // address record may differ in case from the SRV target.
+                        if dns_srv.host().eq_ignore_ascii_case(host) {
                             return Some(instance.clone());
                         }
                     }
